@@ -5,6 +5,7 @@ import (
 	"math"
 	"reflect"
 	"strconv"
+	"time"
 
 	"github.com/go-json-experiment/json/jsontext"
 
@@ -53,6 +54,8 @@ var (
 	tArr4    = reflect.TypeFor[[4]byte]()
 	tAny     = reflect.TypeFor[any]()
 	tRaw     = reflect.TypeFor[jsontext.Value]()
+	tTime    = reflect.TypeFor[time.Time]()
+	tDur     = reflect.TypeFor[time.Duration]()
 
 	tPTo      = reflect.TypeFor[peers.PTo]()
 	tPToPtr   = reflect.TypeFor[peers.PToPtr]()
@@ -63,7 +66,25 @@ var (
 	tPFunc    = reflect.TypeFor[peers.PFunc]()
 )
 
-var scalarTypes = []reflect.Type{tString, tInt, tBool, tFloat64, tInt8, tInt64, tUint8, tUint64, tFloat32, tBytes, tArr4, tAny, tRaw}
+var scalarTypes = []reflect.Type{tString, tInt, tBool, tFloat64, tInt8, tInt64, tUint8, tUint64, tFloat32, tBytes, tArr4, tAny, tRaw, tTime, tDur}
+
+// formatsFor lists format tag values that are meaningful for a field type
+// (needs json.ExperimentalGlobalSupportFormatTag(true), which the workers set).
+func formatsFor(t reflect.Type) []string {
+	switch {
+	case t == tTime:
+		return []string{"RFC3339", "RFC3339Nano", "unix", "unixmilli", "unixmicro", "unixnano", "DateOnly", "'2006-01-02 15h'", "RFC1123", "bogus"}
+	case t == tDur:
+		return []string{"sec", "milli", "micro", "nano", "units", "iso8601", "bogus"}
+	case t == tBytes || t == tArr4:
+		return []string{"base64", "base64url", "base32", "base32hex", "base16", "hex", "array", "bogus"}
+	case t.Kind() == reflect.Float64 || t.Kind() == reflect.Float32:
+		return []string{"nonfinite"}
+	case t.Kind() == reflect.Slice || t.Kind() == reflect.Map:
+		return []string{"emitnull", "emitempty"}
+	}
+	return nil
+}
 var peerTypes = []reflect.Type{tPTo, tPToPtr, tPJSON, tPJSONPtr, tPText, tPAppend, tPFunc}
 
 // SetIDBase makes peer IDs start above base (keeps IDs of different calls apart).
@@ -197,6 +218,9 @@ func (g *GoGen) structType(depth int) reflect.Type {
 			name, opts = "", ",embed"
 			embedUsed = true
 		}
+		if fm := formatsFor(ft); fm != nil && opts != ",embed" && s.Chance(1, 3) {
+			opts += ",format:" + fm[s.Draw(len(fm))] // must come last
+		}
 		f := reflect.StructField{Name: "F" + strconv.Itoa(i), Type: ft}
 		if name != "" || opts != "" {
 			f.Tag = reflect.StructTag(fmt.Sprintf(`json:"%s%s"`, name, opts))
@@ -307,6 +331,22 @@ func (g *GoGen) Value(t reflect.Type, depth int) reflect.Value {
 		default:
 			v.SetBytes([]byte(rawValues[s.Draw(len(rawValues))]))
 		}
+		return v
+	case tTime:
+		switch s.Draw(5) {
+		case 0: // zero
+		case 1:
+			v.Set(reflect.ValueOf(time.Unix(1700000000, 123456789).UTC()))
+		case 2:
+			v.Set(reflect.ValueOf(time.Date(1, 1, 1, 0, 0, 0, 1, time.FixedZone("x", 3600*5+60*30))))
+		case 3:
+			v.Set(reflect.ValueOf(time.Date(9999, 12, 31, 23, 59, 59, 999999999, time.UTC)))
+		default:
+			v.Set(reflect.ValueOf(time.Date(10000, 1, 1, 0, 0, 0, 0, time.FixedZone("", -3600*23)))) // not representable in RFC 3339
+		}
+		return v
+	case tDur:
+		v.SetInt([]int64{0, 1, -1, 1500000000, 3600e9 * 25, math.MaxInt64, math.MinInt64, 999999999}[s.Draw(8)])
 		return v
 	case tBytes:
 		if !s.Chance(1, 6) {
